@@ -12,6 +12,7 @@ Record case := mkCase {
   c_deny : list imp_item;       (* what the stub authorizer refuses *)
   c_reached : bool;             (* false: net/http rejected the request before the chain *)
   c_calls : list imp_item;      (* authorizer questions observed *)
+  c_resets : nat;               (* EndpointInfo.ResetTransport() calls issued on the target endpoint before this request *)
   c_obs : obs;
 }.
 
@@ -36,7 +37,7 @@ Definition items_same (a b : list imp_item) : bool :=
   list_eqb String.eqb (sort_strs (map item_key a)) (sort_strs (map item_key b)).
 
 Definition agree (c : case) : bool :=
-  match pipeline (c_token c) (c_ip c) (c_in c) (c_id c) (allowed (c_deny c)) with
+  match pipeline_ep (after_resets (c_resets c) new_endpoint) (c_token c) (c_ip c) (c_in c) (c_id c) (allowed (c_deny c)) with
   | Forwarded h' =>
       match o_ups (c_obs c) with
       | [u] => (hdr_eqb (identity_part h') (identity_part u) &&
